@@ -128,6 +128,21 @@ fn strip_n3_comment(line: &str) -> &str {
     line
 }
 
+/// Parses `@prefix name: <iri> .` (comment already stripped) into `(name, iri)`.
+fn parse_n3_prefix_declaration(line: &str) -> Option<(String, String)> {
+    let declaration = line.strip_prefix("@prefix")?.trim_end_matches('.');
+    let parts: Vec<&str> = declaration.split_whitespace().collect();
+    if parts.len() < 2 {
+        return None;
+    }
+    let prefix = parts[0].trim_end_matches(':').to_string();
+    let uri = parts[1]
+        .trim_start_matches('<')
+        .trim_end_matches('>')
+        .to_string();
+    Some((prefix, uri))
+}
+
 fn decode_form_component(component: &str) -> String {
     let normalized = component
         .bytes()
@@ -1294,14 +1309,31 @@ impl SparqlDatabase {
         let chunk_size = 1000;
         let chunks: Vec<Vec<String>> = lines.chunks(chunk_size).map(|c| c.to_vec()).collect();
 
+        // A prefix declaration holds for the rest of the document (and prefixes the
+        // database already knows stay usable), not only for the chunk that contains it:
+        // every chunk starts from the prefixes declared before it.
+        let mut declared = self.prefixes.clone();
+        let mut prefixes_before: Vec<HashMap<String, String>> = Vec::with_capacity(chunks.len());
+        for chunk in &chunks {
+            prefixes_before.push(declared.clone());
+            for raw_line in chunk {
+                let line = strip_n3_comment(raw_line.as_str()).trim();
+                if let Some((prefix, uri)) = parse_n3_prefix_declaration(line) {
+                    declared.insert(prefix, uri);
+                }
+            }
+        }
+
         let partial_results: Vec<(
             Vec<Triple>,
             Arc<RwLock<Dictionary>>,
             HashMap<String, String>,
         )> = chunks
             .par_iter()
-            .map(|chunk| {
+            .zip(prefixes_before.into_par_iter())
+            .map(|(chunk, prefixes)| {
                 let mut local_db = SparqlDatabase::new();
+                local_db.prefixes = prefixes;
                 let mut statement = String::new();
 
                 for raw_line in chunk {
@@ -1310,14 +1342,7 @@ impl SparqlDatabase {
                         continue;
                     }
                     if line.starts_with("@prefix") {
-                        let line = line.trim_start_matches("@prefix").trim_end_matches('.');
-                        let parts: Vec<&str> = line.split_whitespace().collect();
-                        if parts.len() >= 2 {
-                            let prefix = parts[0].trim_end_matches(':').to_string();
-                            let uri = parts[1]
-                                .trim_start_matches('<')
-                                .trim_end_matches('>')
-                                .to_string();
+                        if let Some((prefix, uri)) = parse_n3_prefix_declaration(line) {
                             local_db.prefixes.insert(prefix, uri);
                         } else {
                             eprintln!("Invalid prefix declaration: {}", line);
